@@ -1,7 +1,7 @@
 """C14 -- a server connection ends cleanly or with one error report; the server lives on."""
 from runner import Prop
 from vlib import Case
-import mb, cligen
+import mb, cligen, vlib
 from p_c07 import gen_pipeline, svc_tok, expected_trace
 
 
@@ -11,7 +11,7 @@ class PROP(Prop):
     rule = ("request sequences (1..4 requests) on the real TCP and RTU-over-TCP servers with: end of stream at EVERY byte offset; a write failure "
             "(error / zero write) at EVERY offset of every reply; read errors; every class of malformed input (invalid MBAP header, undecodable "
             "PDU, RTU noise beyond the retry limit, oversized reply); accept-loop histories mixing good, rejected and failing connection setups "
-            "and an abort signal over real loopback sockets.  Oracle: silent end on a frame boundary; otherwise exactly one error report; all "
+            "and an abort signal over real loopback sockets; the serial RTU server (server::rtu) on a pty with undecodable requests after j good ones and with the abort signal.  Oracle: silent end on a frame boundary; otherwise exactly one error report; all "
             "complete requests before the fault served (and answered), none after; accept loop keeps serving after failed/rejected/misbehaving "
             "connections, stops with the error on a failing setup, reports Aborted on abort.  non-trivial = a fault was injected")
 
@@ -88,6 +88,23 @@ class PROP(Prop):
                 exp = expected_trace(proto, hdrs, reqs, svc)
                 line = "SRV %s %s - - %s" % (proto, mb.rscript([good + bad + after]), ",".join([svc_tok(e) for e in svc] + ["r=RSI:1:1:-"]))
                 cs.append(Case(line, {"k": "malformed", "proto": proto, "exp": exp, "clean": False}))
+        # --- the serial RTU server's own loop over a pty: no error callback, the report is the value serve_until returns
+        for _ in range(40 if tier == "quick" else 300):
+            k = rng.choice([0, 1, 2, 3])
+            frames, hdrs, reqs, svc = gen_pipeline(rng, "rtu", k)
+            good = b"".join(frames)
+            exp = expected_trace("rtu", hdrs, reqs, svc)
+            svctok = ",".join([svc_tok(e) for e in svc] + ["r=RSI:1:1:-"])
+            mode = rng.choice(["bad", "bad", "abort"])
+            if mode == "bad":
+                bad = rng.choice([mb.rtu_frame(1, b"\x05\x00\x01\x12\x34"), mb.rtu_frame(1, b"\x10\x00\x01\x00\x02\x03\x00\x01\x00"),
+                                  mb.rtu_frame(1, b"\x0f\x00\x00\xff\xff\x01\xaa"), mb.rtu_frame(7, b"\x06\x00\x01\x00")[:0] or mb.rtu_frame(7, b"\x0f\x00\x00\x00\x09\x01\xff")])
+                stream = good + bad + mb.rtu_frame(9, b"\x11")
+                parts = [stream] if rng.random() < 0.5 else mb.chunkings(stream, rng, 1)[0]
+                cs.append(cligen.ser_case(parts, svctok, exp, "e", meta={"k": "serial", "proto": "serial", "exp": exp, "clean": False, "want_end": "E"}))
+            else:
+                parts = [good] if rng.random() < 0.5 or len(good) < 2 else mb.chunkings(good, rng, 1)[0]
+                cs.append(cligen.ser_case(parts if good else [], svctok, exp, "w", abort=True, meta={"k": "serial", "proto": "serial", "exp": exp, "clean": False, "want_end": "ABORTED"}))
         # --- accept loop
         for _ in range(40 if tier == "quick" else 300):
             evs = [rng.choice(["s", "s", "r", "b"]) for _ in range(rng.randrange(1, 7))]
@@ -99,8 +116,8 @@ class PROP(Prop):
         return cs
 
     def project(self, case, s):
-        if case.meta["k"] == "accept":
-            return s
+        if case.meta.get("ser"):
+            return vlib.ser_norm(s, case.meta.get("abort"))
         return s
 
     def oracle(self, c):
@@ -123,6 +140,16 @@ class PROP(Prop):
             if parts[1] != "reports=%d" % bad:
                 return "error reports %s, want %d" % (parts[1], bad)
             return None
+        if m["k"] == "serial":
+            got = vlib.ser_norm(r, m.get("abort")).split("|")
+            want = vlib.ser_norm(",".join(m["exp"] + ["WAIT"]), m.get("abort")).split("|")
+            if len(got) != 3:
+                return "serial server result: %s" % r[:80]
+            if got[:2] != want[:2]:
+                return "serial RTU server served %s / wrote %s before the fault; want %s / %s" % (got[0][:80], got[1][:60], want[0][:80], want[1][:60])
+            if m["want_end"] == "E":
+                return None if got[2].startswith("E:") else "undecodable request must end serve_until with an error; it ended with %s" % got[2]
+            return None if got[2] == m["want_end"] else "serve_until ended with %s, want %s" % (got[2], m["want_end"])
         tr = r.split(",")
         body, end = tr[:-1], tr[-1]
         reports = [t for t in tr if t.startswith("R:")]
